@@ -259,6 +259,28 @@ pub fn first_hop_value(v: &serde_json::Value) -> u32 {
     9999
 }
 
+/// A Peer Down Notification with the given reason octet (RFC 7854 4.9: 1..5; 0 reserved; 6 = RFC 9069 Loc-RIB "local system
+/// closed, TLV data follows"; anything else unassigned) and the data that reason calls for: 1 / 3 carry a BGP NOTIFICATION PDU,
+/// 2 a two-octet FSM event code, 6 one TLV, the others nothing. The test encoder only writes reason 5; the state machine
+/// (`peer_down` in state_machine/machine.rs) never reads the reason, so the model's `MPeerDown` has no such field: whatever
+/// routecore's parser lets through must take the peer down.
+pub fn peer_down_msg(pph: &enc::PerPeerHeader, reason: Option<u32>) -> Bytes {
+    let base = enc::mk_peer_down_notification_msg(pph);
+    let Some(r) = reason else { return base };
+    let mut v = base.to_vec();
+    let last = v.len() - 1;
+    v[last] = r as u8;
+    match r {
+        1 | 3 => { v.extend_from_slice(&[0xff; 16]); v.extend_from_slice(&[0, 21, 3, 6, 2]); }
+        2 => v.extend_from_slice(&[0, 1]),
+        6 => v.extend_from_slice(&[0, 3, 0, 4, b'v', b'r', b'f', b'1']),
+        _ => {}
+    }
+    let len = v.len() as u32;
+    v[1..5].copy_from_slice(&len.to_be_bytes());
+    Bytes::from(v)
+}
+
 pub fn run_case(line: &str) -> String {
     let rt = tokio::runtime::Builder::new_current_thread().enable_all().build().unwrap();
     let reg = Arc::new(rotonda::verif::ingress::new_register());
@@ -288,7 +310,7 @@ pub fn run_case(line: &str) -> String {
                     "T" => enc::mk_termination_msg(),
                     "S" => enc::mk_statistics_report_msg(&pph(n(2) as usize)),
                     "U" => enc::mk_peer_up_notification_msg(&pph(n(2) as usize), "10.0.0.1".parse().unwrap(), 11019, 4567, 111, 222, 0, 0, vec![], n(3) == 1),
-                    "D" => enc::mk_peer_down_notification_msg(&pph(n(2) as usize)),
+                    "D" => peer_down_msg(&pph(n(2) as usize), op.get(3).map(|r| r.parse().unwrap())),
                     "R" => {
                         let ub = update_bytes(n(3), n(4), op[5], n(6), op[7]);
                         w.name_attrs(&ub, n(4));
